@@ -143,9 +143,11 @@ Definition unreg_task (t : task) (w : world) : world :=
 
 Definition has_th (h : th) (w : world) : bool := existsb (th_eqb h) (ths w).
 Definition add_th (h : th) (w : world) : world := set_ths w (ths w ++ [h]).
-(* removeHandler: KeyError when the handler is not installed *)
-Definition rem_th (h : th) (w : world) : world :=
-  if has_th h w then set_ths w (filter (fun u => negb (th_eqb h u)) (ths w)) else set_bad w.
+(* removeHandler: KeyError when the handler is not installed; the exception aborts the rest of the
+   calling function ([k] is that rest) *)
+Definition del_th (h : th) (w : world) : world := set_ths w (filter (fun u => negb (th_eqb h u)) (ths w)).
+Definition rem_th_k (h : th) (w : world) (k : world -> world) : world :=
+  if has_th h w then k (del_th h w) else set_bad w.
 
 Definition push (q : qitem) (w : world) : world := set_queue w (queue w ++ [q]).
 
@@ -262,6 +264,11 @@ Definition wst_timeout (s : wst) : wst :=
      s_parent := s_parent s; s_callval := s_callval s; s_ph := Dead; s_tmo0 := s_tmo0 s; s_ticks := S (s_ticks s);
      s_resumes := s_resumes s; s_timedout := true |}.
 
+Definition wst_thrown (s : wst) : wst :=
+  {| s_name := s_name s; s_obj := s_obj s; s_run := s_run s; s_event := s_event s; s_timeout := s_timeout s; s_tevent := s_tevent s;
+     s_parent := s_parent s; s_callval := s_callval s; s_ph := s_ph s; s_tmo0 := s_tmo0 s; s_ticks := s_ticks s;
+     s_resumes := S (s_resumes s); s_timedout := s_timedout s |}.
+
 (* ------------------------------------------------------------------ processTask *)
 
 (* what processTask does with the value a resumed handler generator hands back
@@ -275,7 +282,7 @@ Definition continue_parent (tev p : nat) (how : rkind) (w : world) : world :=
   | GRaise => mod_evt tev add_err w                                                     (* except BaseException *)
   end.
 
-Definition ptask (t : task) (w : world) : world :=
+Definition ptask_body (t : task) (w : world) : world :=
   let tev := t_ev t in
   match t_ref t with
   | RGen g =>
@@ -297,7 +304,7 @@ Definition ptask (t : task) (w : world) : world :=
       | None => set_bad w
       | Some st =>
           if has_th (THDone sid) w then
-            let w := rem_th (THDone sid) w in
+            let w := del_th (THDone sid) w in
             match (match s_event st with Some e => Some e | None => s_callval st end), t_parent t with
             | Some e, Some p => continue_parent tev p (RSend e) (mod_wst sid wst_resumed (unreg_task t w))
             | _, _ => set_bad w
@@ -307,13 +314,13 @@ Definition ptask (t : task) (w : world) : world :=
   | RTimeout sid =>
       match t_parent t with
       | Some p => continue_parent tev p RThrow
-                    (mod_wst sid (fun s => {| s_name := s_name s; s_obj := s_obj s; s_run := s_run s; s_event := s_event s;
-                                              s_timeout := s_timeout s; s_tevent := s_tevent s; s_parent := s_parent s;
-                                              s_callval := s_callval s; s_ph := s_ph s; s_tmo0 := s_tmo0 s; s_ticks := s_ticks s;
-                                              s_resumes := S (s_resumes s); s_timedout := s_timedout s |}) (unreg_task t w))
+                    (mod_wst sid wst_thrown (unreg_task t w))
       | None => set_bad (unreg_task t w)
       end
   end.
+
+(* once the machinery has crashed ([bad]) the model stops: every further step is the identity *)
+Definition ptask (t : task) (w : world) : world := if bad w then w else ptask_body t w.
 
 (* ------------------------------------------------------------------ _dispatcher *)
 
@@ -338,33 +345,36 @@ Fixpoint run_handlers (tok hi : nat) (hs : list hbody) (acc : world * bool) : wo
 Definition obj_ok (o : option nat) (tok : nat) : bool := match o with None => true | Some x => Nat.eqb x tok end.
 
 Definition on_event (tok : nat) (w : world) (sid : nat) : world :=
+  if bad w then w else
   match nth_error (wsts w) sid with
   | None => set_bad w
   | Some st =>
       if negb (s_run st) && obj_ok (s_obj st) tok
-      then mod_evt tok set_alert (mod_wst sid (wst_seen tok) (rem_th (THEv sid) w))
+      then rem_th_k (THEv sid) w (fun w => mod_evt tok set_alert (mod_wst sid (wst_seen tok) w))
       else w
   end.
 
 Definition on_done (tok : nat) (w : world) (sid : nat) : world :=
+  if bad w then w else
   match nth_error (wsts w) sid with
   | None => set_bad w
   | Some st =>
       if onat_eqb (s_event st) (Some tok) then
         let w := reg_task (mk_task (s_tevent st) (RWait sid) (Some (s_parent st))) w in
         let w := mod_wst sid (wst_phase Flagged) w in
-        if 0 <=? s_timeout st then rem_th (THTick sid) w else w
+        if 0 <=? s_timeout st then rem_th_k (THTick sid) w (fun w => w) else w
       else w
   end.
 
 Definition on_tick (w : world) (sid : nat) : world :=
+  if bad w then w else
   match nth_error (wsts w) sid with
   | None => set_bad w
   | Some st =>
       if s_timeout st =? 0 then
         let w := reg_task (mk_task (s_tevent st) (RTimeout sid) (Some (s_parent st))) w in
-        let w := if s_run st then w else rem_th (THEv sid) w in
-        mod_wst sid wst_timeout (rem_th (THTick sid) (rem_th (THDone sid) w))
+        let rest := fun w => rem_th_k (THDone sid) w (fun w => rem_th_k (THTick sid) w (mod_wst sid wst_timeout)) in
+        if s_run st then rest w else rem_th_k (THEv sid) w rest
       else if 0 <? s_timeout st then mod_wst sid wst_tick w
       else w
   end.
@@ -381,6 +391,7 @@ Definition tick_sids (w : world) : list nat :=
   flat_map (fun h => match h with THTick sid => [sid] | _ => [] end) (ths w).
 
 Definition dispatch (p : program) (w : world) (q : qitem) : world :=
+  if bad w then w else
   match q with
   | QUser tok =>
       match nth_error (evs w) tok with
@@ -406,15 +417,45 @@ Definition dispatch (p : program) (w : world) (q : qitem) : world :=
 
 (* ------------------------------------------------------------------ tick() and the driver *)
 
-Definition rotate {A} (k : nat) (l : list A) : list A :=
-  match l with
-  | [] => []
-  | _ => let j := Nat.modulo k (length l) in skipn j l ++ firstn j l
+(* The root's task set is iterated in an order the property quantifies over.  A schedule names tasks by
+   (token, handler index, kind): kind 0 = the handler generator itself, 1 = its outstanding call/wait
+   generator, 2 = its pending TimeoutError.  [order_by] moves the named tasks to the front, in the order
+   given; tasks it does not name keep their insertion order behind them.  The result is a permutation. *)
+Definition key := (nat * nat * nat)%type.
+
+Definition gen_key (w : world) (gid : nat) : nat * nat :=
+  match nth_error (gens w) gid with Some g => (g_tok g, g_hi g) | None => (O, O) end.
+
+Definition tkey (w : world) (t : task) : key :=
+  match t_ref t, t_parent t with
+  | RGen g, _ => (gen_key w g, O)
+  | RWait _, Some p => (gen_key w p, 1%nat)
+  | RTimeout _, Some p => (gen_key w p, 2%nat)
+  | _, None => ((O, O), 3%nat)
   end.
 
-Definition tick (p : program) (gen_ev : bool) (rot t : nat) (w : world) : world :=
+Definition key_eqb (a b : key) : bool :=
+  Nat.eqb (fst (fst a)) (fst (fst b)) && Nat.eqb (snd (fst a)) (snd (fst b)) && Nat.eqb (snd a) (snd b).
+
+Fixpoint pick (w : world) (k : key) (l : list task) : option (task * list task) :=
+  match l with
+  | [] => None
+  | t :: r => if key_eqb (tkey w t) k then Some (t, r)
+              else match pick w k r with Some (u, r') => Some (u, t :: r') | None => None end
+  end.
+
+Fixpoint order_by (w : world) (s : list key) (l : list task) : list task :=
+  match s with
+  | [] => l
+  | k :: s' => match pick w k l with
+               | Some (t, r) => t :: order_by w s' r
+               | None => order_by w s' l
+               end
+  end.
+
+Definition tick (p : program) (gen_ev : bool) (sch : list key) (t : nat) (w : world) : world :=
   let w := add_log (LTick t) w in
-  let w := fold_left (fun w t => ptask t w) (rotate rot (tasks w)) w in
+  let w := fold_left (fun w t => ptask t w) (order_by w sch (tasks w)) w in
   let w := if gen_ev then push QGenEv w else w in
   let batch := queue w in
   fold_left (dispatch p) batch (set_queue w []).
@@ -425,14 +466,11 @@ Definition init : world :=
 Definition fire_roots (roots : list (nat * nat)) (t : nat) (w : world) : world :=
   fold_left (fun w r => if Nat.eqb (fst r) t then fst (fire_user (snd r) O O w) else w) roots w.
 
-Definition rot_at (rots : list nat) (t : nat) : nat :=
-  match rots with [] => O | _ => nth (Nat.modulo t (length rots)) rots O end.
-
-Fixpoint run_from (p : program) (gen_ev : bool) (rots : list nat) (roots : list (nat * nat)) (t n : nat) (w : world) : world :=
+Fixpoint run_from (p : program) (gen_ev : bool) (scheds : list (list key)) (roots : list (nat * nat)) (t n : nat) (w : world) : world :=
   match n with
   | O => w
-  | S n' => run_from p gen_ev rots roots (S t) n' (tick p gen_ev (rot_at rots t) t (fire_roots roots t w))
+  | S n' => run_from p gen_ev scheds roots (S t) n' (tick p gen_ev (nth t scheds []) t (fire_roots roots t w))
   end.
 
-Definition run (p : program) (gen_ev : bool) (rots : list nat) (roots : list (nat * nat)) (n : nat) : world :=
-  run_from p gen_ev rots roots O n init.
+Definition run (p : program) (gen_ev : bool) (scheds : list (list key)) (roots : list (nat * nat)) (n : nat) : world :=
+  run_from p gen_ev scheds roots O n init.
